@@ -1,6 +1,7 @@
 import KpModel.Key
 import KpModel.Codec.Base64
 import KpModel.Codec.Lemmas
+import KpModel.Codec.Utf8Lemmas
 /-!
 # C20 — credentials derive the KeePass composite key in every documented encoding
 Property theorems only.  Model: `KpModel/Key.lean` (tied to the real key derivation by the correspondence
@@ -158,6 +159,25 @@ theorem keyfile_v1_every_key (P : KeyPrims) (hP : P.b64 = Kp.Codec.b64Decode) (b
     (hv : ver ≠ some v2) (k : Bytes) :
     keyfileKey P buf (.wellFormed ver (some (Kp.Codec.b64Encode k))) = k :=
   keyfile_v1 P buf ver _ k hv (by rw [hP]; exact Kp.Codec.b64_roundtrip k)
+
+/-- **different passwords, different keys — unless SHA-256 collides**: the UTF-8 byte strings of two different
+    passwords are different (`utf8_injective`, proved for the executable encoder), so two password-only
+    credentials have the same composite key only through a collision of the hash on the inputs that occur
+    (the two collision-freedom facts are hypotheses about those inputs, never axioms) -/
+theorem distinct_passwords_distinct_keys (P : KeyPrims) (hP : P.utf8 = Kp.Codec.utf8) (pw pw' : Str) (hne : pw ≠ pw')
+    (h1 : P.sha256 (P.sha256 (P.utf8 pw)) = P.sha256 (P.sha256 (P.utf8 pw')) →
+          P.sha256 (P.utf8 pw) = P.sha256 (P.utf8 pw'))
+    (h2 : P.sha256 (P.utf8 pw) = P.sha256 (P.utf8 pw') → P.utf8 pw = P.utf8 pw') :
+    compositeKdbx P ⟨some pw, none⟩ ≠ compositeKdbx P ⟨some pw', none⟩ := by
+  rw [(composite_def P pw [] .malformed).2.1, (composite_def P pw' [] .malformed).2.1]
+  intro h
+  have e := h2 (h1 (Option.some.inj h))
+  rw [hP] at e
+  exact hne (Kp.Codec.utf8_injective pw pw' e)
+
+/-- the password enters the key as its UTF-8 bytes and nothing else: different passwords, different hash inputs -/
+theorem password_bytes_distinct (pw pw' : Str) (hne : pw ≠ pw') : Kp.Codec.utf8 pw ≠ Kp.Codec.utf8 pw' :=
+  fun e => hne (Kp.Codec.utf8_injective pw pw' e)
 
 /-! Non-vacuity -/
 example : hexWrite (fun i => i % 2 == 0) 0 [0xAB, 0x0F] = ['A', 'b', '0', 'f'] := by decide
